@@ -23,6 +23,7 @@ EXTENDS Integers, Sequences, FiniteSets, TLC, Json, CombDefs
 CONSTANTS Shapes,      \* base shapes of leaves (sequences of extents)
           MaxDepth,    \* number of wraps
           MaxSize,     \* bound on the number of array elements of a program
+          Focus,       \* "all": every wrap; "chains": only the Chain / Invert wraps (deep chain nestings, cheaply)
           EmitCases
 
 VARIABLES p, depth, res    \* res: everything computed for p, once (TLC would re-evaluate definitions per use)
@@ -79,6 +80,10 @@ WChain == /\ CanWrap
                Wrap([k |-> "chain", parts |-> IF first THEN <<o, p>> ELSE <<p, o>>])
 WNestedChain == /\ CanWrap /\ p.k = "chain"
                 /\ Wrap([k |-> "chain", parts |-> <<MkLeaf("aff", FreshId, SemShape(p)), p, MkLeaf("flip", FreshId + 1, SemShape(p))>>])
+\* a chain that contains an inverted chain (merge_chains must leave the inverted part alone, or invert its order too)
+WChainOfInverted == /\ CanWrap /\ p.k = "chain"
+                    /\ Wrap([k |-> "chain", parts |-> <<MkLeaf("aff", FreshId, SemShape(p)), [k |-> "invert", p |-> p],
+                                                         MkLeaf("perm", FreshId + 1, SemShape(p))>>])
 WVmap == /\ CanWrap
          /\ \E n \in {2, 3}, cax \in {-9, 0, 1, -1, -2} :
               /\ (cax # -9 => SemCond(p) # None /\ cax < Len(SemCond(p)) + 1 /\ -(Len(SemCond(p)) + 1) <= cax)
@@ -125,7 +130,8 @@ WInvalid == /\ depth < MaxDepth /\ res.valid
                   \/ Wrap([k |-> "reshape", p |-> p, shape |-> <<Size(p) + 1>>, cs |-> None])
                   \/ (SemCond(p) # None /\ Wrap([k |-> "chain", parts |-> <<p, [k |-> "cadd", id |-> FreshId, shape |-> s, cs |-> <<5>>]>>]))
 
-Next == WInvert \/ WChain \/ WNestedChain \/ WVmap \/ WStack \/ WConcat \/ WPartial \/ WReshape \/ WEmbed \/ WInvalid
+Next == \/ WInvert \/ WChain \/ WNestedChain \/ WChainOfInverted
+        \/ (Focus = "all" /\ (WVmap \/ WStack \/ WConcat \/ WPartial \/ WReshape \/ WEmbed \/ WInvalid))
 Spec == Init /\ [][Next]_vars
 
 \* ---- design theorems (computed once per program in Eval, checked as invariants on r) ---------------------------
